@@ -758,6 +758,13 @@ func (e *Exec) execBlock(fr *frame, b *ssa.BasicBlock, st *State) {
 			if b.Succs[0] == b.Succs[1] {
 				occ1 = 1
 			}
+			if !ct.IsConst() {
+				if e.implied(st.G, ct, 0) {
+					ct = e.S.True
+				} else if e.implied(st.G, e.S.Not(ct), 0) {
+					ct = e.S.False
+				}
+			}
 			if ct.IsTrue() {
 				e.transfer(fr, st, b, b.Succs[0], 0)
 			} else if ct.IsFalse() {
@@ -785,6 +792,37 @@ func (e *Exec) execBlock(fr *frame, b *ssa.BasicBlock, st *State) {
 			e.execInstr(fr, st, in)
 		}
 	}
+}
+
+// implied: syntactic check that guard g entails literal c.
+func (e *Exec) implied(g, c *Term, depth int) bool {
+	if g == c {
+		return true
+	}
+	if depth > 3 {
+		return false
+	}
+	switch g.Op {
+	case OpAnd:
+		for _, a := range g.Args {
+			if a == c {
+				return true
+			}
+		}
+		for _, a := range g.Args {
+			if a.Op == OpOr && e.implied(a, c, depth+1) {
+				return true
+			}
+		}
+	case OpOr:
+		for _, a := range g.Args {
+			if !e.implied(a, c, depth+1) {
+				return false
+			}
+		}
+		return true
+	}
+	return false
 }
 
 func (e *Exec) describe(v Val) string {
